@@ -97,6 +97,7 @@ func (r *returnsRunner) execute(cmd *cobra.Command, args []string) error {
 		CommodityFilter: predicate.ByName[*model.Commodity](r.commodities.Regex()),
 	}
 	err = j.Build().Process(
+		journal.Sort(),
 		journal.ComputePrices(valuation),
 		check.Check(),
 		journal.Valuate(reg, valuation),
